@@ -51,3 +51,6 @@ PROPS['C09'] = dict(functions=[SSJ], trusted=[PSM, PANDAS, LEMMA_INJ])
 PROPS['C11'] = dict(functions=HELPERS + [SSJ, MVH], trusted=[PANDAS])
 PROPS['C08'] = dict(functions=[MVH] + HELPERS, trusted=[PANDAS])
 PROPS['C15'] = dict(functions=VALIDATORS, trusted=[PANDAS])
+
+JOINS = ['py_stringsimjoin.join.%s_join_py.%s_join_py' % (m, m) for m in ('jaccard', 'cosine', 'dice')]
+PROPS['T2'] = dict(functions=[JOINS[0]])
